@@ -1695,8 +1695,10 @@ def text_index_reads(fn):
 
 
 def rule_textindex(chk, idx):
+    # floor 0: the expected number of such reads is "however many the code has" - today one, none after a rewrite with a slice
+    # (source[end:end + 1]); the positive control below keeps the rule from passing vacuously
     chk.rule('C06.textindex', 'a character of the text read at a regex match boundary is dominated by a bound test that keeps the index inside the text',
-             floor=1, control=True)
+             floor=0, control=True)
     for mod, cls, fn in idx.functions():
         if not mod.name.startswith(DT) or '.resources.' in mod.name:
             continue
